@@ -131,6 +131,9 @@ type Env struct {
 	obs   []string // observation log (determinism comparison)
 	keepObs bool
 	disks []*simdisk.Disk
+	// NontrivialIf, if set, decides Result.Nontrivial after the run (when
+	// scheduler statistics are known).
+	NontrivialIf func(res *Result) bool
 }
 
 // Rng returns a generator for the given purpose, independent of all others.
@@ -297,6 +300,10 @@ func RunSim(t *testing.T, c *Case, keepTrace bool, body Body) (res *Result) {
 			}
 		}
 		res.SchedHash = h
+		res.Sig = simsched.Mix(res.Sig, h)
+		if env.NontrivialIf != nil {
+			res.Nontrivial = env.NontrivialIf(res)
+		}
 		c.Schedule = env.S.Choices
 		if env.viol != nil {
 			res.Viol = env.viol
